@@ -6,61 +6,61 @@ T={
  'C01':("exploration","property-based testing (proptest byte tapes) + exhaustive prefix enumeration + coverage-guided fuzzing (libFuzzer/ASan, thorough)",
   "Generated search over byte strings (noise, grammar-generated hostile documents, mutations/splices of the bundled maps, four encodings, every prefix of the small files) with a totality oracle inside catch_unwind for all nine decoders, a re-encode/re-decode leg and an end-of-file sentinel that shows the parse was never aborted; run in both feature builds (default, tracing). It cannot prove totality; it shows no counterexample in the explored space and catches the shapes that break such parsers (empty tokens, trailing type letters, half code units).",
   "trusted: rustc, proptest, the framing model used only for the non-trivial rule; hangs are reported as exit 2 by a per-case watchdog"),
- 'C02':("exploration","property-based testing: round-trip oracle with field-by-field comparator",
+ 'C02':("exploration","property-based testing: round-trip oracle with field-by-field comparator + coverage-guided byte-level fuzzing with the same oracle (libFuzzer/ASan, thorough)",
   "Decode-encode-decode on accepted-mode documents and field mutations of the bundled maps with the comparison the statement enumerates; known findings are classified by input+symptom predicates and steered around in the main search, probes keep them reachable.",
   "trusted: the comparator and the chronology filter (reference framing + public parse functions)"),
- 'C03':("exploration","property-based testing: metamorphic edit/round-trip relation",
+ 'C03':("exploration","property-based testing: metamorphic edit/round-trip relation + coverage-guided generator-tape fuzzing (libFuzzer/ASan, thorough)",
   "Random edits of representable values applied to decoded maps; R=decode(encode(edit(M))) must show the edited values exactly and equal the unedited round trip elsewhere (fixed dependency table).",
   "trusted: the per-field value generators encode the statement's 'representable' domain"),
- 'C04':("exploration","property-based testing: every encoded line checked against the public section parsers",
-  "Encodings of maps decoded from hostile and accepted inputs are checked line by line: version line, canonical headers, acceptance by parse_<section>, and value / count agreement.",
+ 'C04':("exploration","property-based testing: every encoded line checked against the public section parsers + coverage-guided byte-level fuzzing with the same oracle (libFuzzer/ASan, thorough)",
+  "Encodings of maps decoded from hostile and accepted inputs are checked line by line: version line, canonical headers, acceptance by parse_<section>, and value / count agreement; encode, encode_to_string and encode_to_path (fresh and existing targets) must leave the same text.",
   "trusted: the public parse_* functions as acceptance oracle (as the property states)"),
- 'C05':("exploration","exhaustive small-scope enumeration + property-based testing against a framing reference model",
+ 'C05':("exploration","exhaustive small-scope enumeration + property-based testing against a framing reference model + coverage-guided byte-level fuzzing with the same oracle (libFuzzer/ASan, thorough)",
   "All line-kind sequences up to a bounded length x terminators x four encodings are enumerated and the trace of a recording DecodeBeatmap implementor is compared with an independent framing model; random longer sequences add the reference-driver and metamorphic-insertion oracles.",
   "trusted: the framing model (Appendix A.1), written from the property statement"),
- 'C06':("exploration","property-based testing: metamorphic deletion of rejected lines",
+ 'C06':("exploration","property-based testing: metamorphic deletion of rejected lines + coverage-guided byte-level fuzzing with the same oracle (libFuzzer/ASan, thorough)",
   "Files with corrupted records; lines the public parsers reject at their position are deleted (all, and one by one) and the decoded result must not change.",
   "trusted: rejection is learned from the public parse_* functions, line positions from the framing model"),
- 'C07':("exploration","property-based testing: differential between decoders",
+ 'C07':("exploration","property-based testing: differential between decoders + coverage-guided byte-level fuzzing with the same oracle (libFuzzer/ASan, thorough)",
   "The eight specialised decoders are compared with Beatmap on every shared field over the C01 input families.",
   "trusted: the projection tables"),
- 'C08':("exploration","exhaustive schedule enumeration + property-based testing with scripted readers",
+ 'C08':("exploration","exhaustive schedule enumeration + property-based testing with scripted readers + coverage-guided generator-tape fuzzing (libFuzzer/ASan, thorough)",
   "Files x encodings x every fixed chunk size 1..64 / BufReader capacity 1..16 / from_str / from_path exhaustively, random chunk+Interrupted schedules beyond; every delivery must equal from_bytes.",
   "trusted: the scripted reader honours the BufRead contract"),
  'C09':("fault_enumeration","fault injection with enumerated fault points (scripted readers/writers)",
   "Every byte offset of every small bundled file in all four encodings (sampled offsets of the large ones) x five error kinds x two deliveries x {persistent, one-shot} on the read side; every output offset x {Err, Ok(0)}, flush failure and short-write schedules on the write side; random Interrupted schedules. The injected error must come back with its kind and payload.",
   "trusted: only faults expressible through io::Read/BufRead/Write are injected"),
- 'C10':("exploration","exhaustive scalar sweep + property-based testing with lossy-conversion oracles",
+ 'C10':("exploration","exhaustive scalar sweep + property-based testing with lossy-conversion oracles + coverage-guided byte-level fuzzing with the same oracle (libFuzzer/ASan, thorough)",
   "Every Unicode scalar (thorough) in four encodings, encoding differential on generated texts, invalid UTF-8 / unpaired surrogate injections against std's lossy conversions, every stray tail byte.",
   "trusted: std String::from_utf8_lossy / from_utf16_lossy as the oracle"),
- 'C11':("exploration","property-based testing against a table-driven reference interpretation + exhaustive key x class matrix",
+ 'C11':("exploration","property-based testing against a table-driven reference interpretation + exhaustive key x class matrix + coverage-guided generator-tape and text-level grammar fuzzing against the reference model (libFuzzer/ASan, thorough)",
   "Record lists for the six key/value-like sections against an independent interpretation of the format rules; specialised decoders and Beatmap fields both compared.",
   "trusted: the rule table (Appendix A.2)"),
- 'C12':("exploration","exhaustive small-scope enumeration + property-based testing against a legacy timing model",
+ 'C12':("exploration","exhaustive small-scope enumeration + property-based testing against a legacy timing model + coverage-guided generator-tape and text-level grammar fuzzing against the reference model (libFuzzer/ASan, thorough)",
   "All sequences over a 32-line alphabet up to length 4/5 in four modes, random sequences to 40 lines; four control-point lists bit-equal to the model plus independent invariants.",
   "trusted: the timing and control-point models (Appendix A.3/A.4)"),
- 'C13':("exploration","exhaustive small-scope enumeration + model-based property testing of add histories",
+ 'C13':("exploration","exhaustive small-scope enumeration + model-based property testing of add histories + coverage-guided generator-tape fuzzing (libFuzzer/ASan, thorough)",
   "All add-histories over 32 ops up to length 4/5 and random histories to 60 ops against a linear-scan model, lookups probed at/between/beyond stored times after every op.",
   "trusted: the linear-scan model"),
- 'C14':("exploration","exhaustive enumeration (type x sound bytes) + property-based testing against a reference parser",
+ 'C14':("exploration","exhaustive enumeration (type x sound bytes) + property-based testing against a reference parser + coverage-guided generator-tape and text-level grammar fuzzing against the reference model (libFuzzer/ASan, thorough)",
   "An independent parser of the legacy hit-object grammar is compared with HitObjects on all observable fields.",
   "trusted: the reference grammar (Appendix A.5)"),
- 'C15':("exploration","property-based testing: reference pipeline + metamorphic time shift",
+ 'C15':("exploration","property-based testing: reference pipeline + metamorphic time shift + coverage-guided generator-tape fuzzing (libFuzzer/ASan, thorough)",
   "Generated maps checked against a reference pipeline (stable order, break combos, velocity/duration closed forms, sample defaults at +5 ms) and against themselves shifted by whole milliseconds.",
   "trusted: reference grammar + timing model; curve distance taken from the implementation"),
- 'C16':("exploration","property-based testing + exhaustive integer grids with a cut/extend oracle",
+ 'C16':("exploration","property-based testing + exhaustive integer grids with a cut/extend oracle + coverage-guided generator-tape fuzzing (libFuzzer/ASan, thorough)",
   "Requested-length semantics checked against the natural curve (prefix equality, cut point on its segment, exact dist) over generated control-point lists x nine lengths and over exhaustive small grids.",
   "trusted: the oracle derives the expected curve from the implementation's own natural curve (metamorphic), tolerances as stated"),
- 'C17':("exploration","property-based testing against exact f64 curve evaluation (two-sided Hausdorff bound) + exhaustive arc grid",
+ 'C17':("exploration","property-based testing against exact f64 curve evaluation (two-sided Hausdorff bound) + exhaustive arc grid + coverage-guided generator-tape fuzzing (libFuzzer/ASan, thorough)",
   "Computed paths compared with dense exact evaluations of Bezier / circumcircle arc / Catmull-Rom curves under per-family bounds derived from the approximation tolerances; fallbacks and joints checked differentially.",
   "trusted: the exact evaluators and the stated bounds (incl. an f32 conditioning term)"),
- 'C18':("exploration","exhaustive op-sequence enumeration + model-based property testing",
+ 'C18':("exploration","exhaustive op-sequence enumeration + model-based property testing + coverage-guided generator-tape fuzzing (libFuzzer/ASan, thorough)",
   "All sequences over 20 API operations up to length 5/6 and random sequences to 40 ops sharing one CurveBuffers; every returned curve must be bit-identical to a fresh computation of the data held at that moment.",
   "trusted: Curve::new with fresh buffers as the reference"),
- 'C19':("exploration","property-based testing with invariants over progress values",
+ 'C19':("exploration","property-based testing with invariants over progress values + coverage-guided generator-tape fuzzing (libFuzzer/ASan, thorough)",
   "Curves from the C16/C17 generators x ~70 progress values: end points, exact clamping, distance for progress, Lipschitz bound, vertex hits, linear-scan agreement.",
-  "trusted: tolerance 1e-3 x scale for f32 interpolation"),
- 'C20':("exploration","exhaustive parameter grid + property-based testing against an eager reference list + shared-buffer histories",
+  "trusted: tolerance of 16 f32 ulps of the coordinate scale for f32 interpolation"),
+ 'C20':("exploration","exhaustive parameter grid + property-based testing against an eager reference list + shared-buffer histories + coverage-guided generator-tape fuzzing (libFuzzer/ASan, thorough)",
   "The event stream is compared element-wise with an eager reference and with structural invariants; iterator histories over one junk-prefilled buffer.",
   "trusted: the eager reference (written from the statement)"),
 }
@@ -70,7 +70,7 @@ m={
  "hooks":{"guard":"--cfg rosu_map_verif","enable":"no hooks are needed or present: every observation goes through rosu-map's public API; the harness depends on /repo by path, so each check rebuilds it from the current working tree","baseline_off_cmd":"cd /repo && cargo test --workspace --no-fail-fast --offline","source_commits":[],"add_only":True},
  "engines":[
   {"name":"rosu-verif","path":"harness","serves_properties":[p['id'] for p in props],"kind_free_text":"Rust crate: seeded proptest runner over byte tapes (E1), exhaustive small-scope enumeration (E2), regress replay (E4), reference models; entry point ./check <ID> <quick|thorough>"},
-  {"name":"rosu-verif-fuzz","path":"harness/fuzz","serves_properties":["C01","C02","C04","C05","C06","C07","C10"],"kind_free_text":"cargo-fuzz / libFuzzer targets with AddressSanitizer whose bodies call the same oracles (E3); used by the thorough tier"}
+  {"name":"rosu-verif-fuzz","path":"harness/fuzz","serves_properties":[p['id'] for p in props if p['id']!="C09"],"kind_free_text":"cargo-fuzz / libFuzzer targets with AddressSanitizer whose bodies call the same oracles (E3); used by the thorough tier"}
  ],
  "checks":[], "not_applicable":[],
  "notes":"Technique family: property-based testing and fuzzing. Exit codes of every command: 0 held, 1 VIOLATION line printed, 2 inconclusive (build failure, watchdog). known_findings.json lists genuine defects recorded (open) or repaired by fix: commits (fixed). See DESIGN.md."
